@@ -33,6 +33,7 @@ EXPLANATION = (
 
 
 def run(ctx: Ctx):
+    ctx.attempt(rules.rule_entity_entry, ctx, "D6", "entities are put into the maps and their indexes only at initialisation and by the request updates")
     for kind in KINDS:
         ctx.attempt(add_rule, ctx, kind)
         ctx.attempt(remove_rule, ctx, kind)
